@@ -23,9 +23,13 @@ import traceback
 ISAS = [
     ("armv7", "amoco.arch.arm.cpu_armv7", "amoco.arch.arm.v7.env",
      [("arm", {"isetstate": 0, "itstate": 0, "endianstate": 0, "ibigend": 0}),
-      ("thumb", {"isetstate": 1, "itstate": 0, "endianstate": 0, "ibigend": 0})]),
+      ("thumb", {"isetstate": 1, "itstate": 0, "endianstate": 0, "ibigend": 0}),
+      # big-endian instruction fetch: only C11's mode-switch histories use these ("__switch__")
+      ("arm_be", {"isetstate": 0, "itstate": 0, "endianstate": 0, "ibigend": 1, "__switch__": 1}),
+      ("thumb_be", {"isetstate": 1, "itstate": 0, "endianstate": 0, "ibigend": 1, "__switch__": 1})]),
     ("armv8", "amoco.arch.arm.cpu_armv8", "amoco.arch.arm.v8.env64",
-     [("a64", {"endianstate": 0, "ibigend": 0})]),
+     [("a64", {"endianstate": 0, "ibigend": 0}),
+      ("a64_be", {"endianstate": 0, "ibigend": 1, "__switch__": 1})]),
     ("dwarf", "amoco.arch.dwarf.cpu", None, [("dw", {})]),
     ("eBPF", "amoco.arch.eBPF.cpu", None, [("ebpf", {})]),
     ("bpf", "amoco.arch.eBPF.cpu_bpf", None, [("bpf", {})]),
@@ -53,8 +57,9 @@ ISAS = [
 NOT_IMPORTABLE = ["amoco.arch.avr.cpu", "amoco.arch.ppc32.cpu_e200", "amoco.arch.superh.cpu_sh4"]
 
 
-def isa_modes(names=None):
-    """all (isa, mode) pairs.  VERIF_DEC_ISAS=x86,x64 restricts the list - a development aid for mutation
+def isa_modes(names=None, switch=False):
+    """all (isa, mode) pairs (switch=True: including the modes that exist only for C11's mode-switch
+    histories).  VERIF_DEC_ISAS=x86,x64 restricts the list - a development aid for mutation
     experiments only; the registered commands never set it."""
     if names is None and os.environ.get("VERIF_DEC_ISAS"):
         names = os.environ["VERIF_DEC_ISAS"].split(",")
@@ -62,9 +67,18 @@ def isa_modes(names=None):
     for name, mod, envm, modes in ISAS:
         if names and name not in names:
             continue
-        for m, _ in modes:
-            out.append((name, m))
+        for m, v in modes:
+            if switch or not v.get("__switch__"):
+                out.append((name, m))
     return out
+
+
+def switchable_modes(name):
+    """modes of an ISA that one process can switch between by writing the decode-mode globals
+    (not the co-import modes, which are a property of the process)"""
+    ent = [e for e in ISAS if e[0] == name][0]
+    ms = [m for m, v in ent[3] if not v.get("__preload__")]
+    return ms if len(ms) > 1 and ent[2] is not None else []
 
 
 def quiet():
@@ -263,6 +277,54 @@ def spec_inputs(isa, spec, rng, filling, with_prefix=False):
     return pre + head + tail
 
 
+def prefix_classes(isa):
+    """the prefix specs of the ISA grouped by their setup function (x64: grp1, grp2, 66, 67, REX)"""
+    out = {}
+    for s in isa.specs():
+        if s.pfx is True:
+            out.setdefault(s.hook.__name__ + "/" + str(s.mask.ival), []).append(s)
+    # one class per (hook, mask): REX (free bits) is its own class, the fixed-byte prefixes group by hook
+    byhook = {}
+    for k, v in out.items():
+        byhook.setdefault(v[0].hook.__name__, []).extend(v)
+    return [byhook[k] for k in sorted(byhook)]
+
+
+def sib_head(spec, endian, rng, mod):
+    """fixed part of `spec` with random free bits, except that the free bits of its LAST byte (the ModRM byte
+    of the x86-family rows written with /r or /digit) are set to mod=`mod`, rm=100: a memory operand with a
+    SIB byte, and a displacement for mod 01 / 10"""
+    n = spec.mask.size
+    fix, mask = spec.fix.ival, spec.mask.ival
+    free = ((1 << n) - 1) & ~mask
+    v = fix | (rng.getrandbits(n) & free)
+    lo = n - 8
+    want = ((mod & 3) << 6) | 0b100
+    keep = 0b11000111
+    fb = (free >> lo) & 0xFF
+    last = (v >> lo) & 0xFF
+    last = (last & ~(fb & keep)) | (want & fb & keep)
+    v = (v & ~(0xFF << lo)) | (last << lo)
+    bs = v.to_bytes(n // 8, "little")
+    return bs[::endian] if endian == -1 else bs
+
+
+def prefixed_sib_inputs(isa, spec, si, rng):
+    """for ISAs with prefix specs: `spec` behind one prefix of every prefix class (variable-length rows) or of
+    one rotating class (fixed-length rows), with the ModRM filling of sib_head; the mod value rotates so that
+    every row sees mod 00, 01 and 10"""
+    classes = prefix_classes(isa)
+    if not classes:
+        return []
+    out = []
+    pick = range(len(classes)) if spec.size == 0 else [si % len(classes)]
+    for j in pick:
+        p = spec_bytes(rng.choice(classes[j]), isa.endian(), rng, "random")
+        head = sib_head(spec, isa.endian(), rng, (si + j) % 3)
+        out.append(("pfx%d" % j, p + head + tail_bytes(rng, "random", isa.maxlen + 4)))
+    return out
+
+
 # ---------------------------------------------------------------------------------------------------
 # read-only projection of instructions
 
@@ -322,7 +384,7 @@ def proj(x, depth=0):
     if tn == "Bits":
         return ["Bits", getattr(x, "size", -1), getattr(x, "ival", -1)]
     if tn == "ispec":
-        return ["ispec", x.format, getattr(x.hook, "__name__", None)]
+        return ["ispec", x.format, getattr(x.hook, "__module__", None), getattr(x.hook, "__name__", None)]
     if callable(x):
         return ["fn", getattr(x, "__name__", tn)]
     return ["obj", tn]
@@ -609,6 +671,8 @@ def selftest_traces():
     c17([dec, {"st": "render", "k": "raised"}], "Raised")
     c17([dec, {"st": "render", "k": "bytes"}], "RenderOutcome")
     c17([dec, {"st": "pickle", "k": "ok", "fp0": "a", "fp1": "b"}], "PickleChanged")
+    c17([dec, {"st": "pickle", "k": "ok", "fp0": "a", "fp1": "a", "tx0": "t", "tx1": "u"}], "PickleChanged")
+    c17([dec, {"st": "pickle", "k": "ok", "fp0": "a", "fp1": "a", "tx0": "t", "tx1": "t"}], None)
     c17([dec, {"st": "apply", "k": "raised"}], "Raised")
     c17([dec, {"st": "apply", "k": "logged"}], None)
     return T
